@@ -51,6 +51,7 @@ def run(chk):
     r4_chunk_guards(chk, repo)
     r5_continuity(chk, repo)
     r6_time_fields(chk, repo)
+    r7_independent_expectation(chk, repo)
 
 
 # ------------------------------------------------------------------------------------ R1
@@ -164,6 +165,33 @@ def _label_checkers(repo):
     return out
 
 
+def _is_dtype_expr(r, at, e, depth=3):
+    """Is `e` (at CFG node `at`) a dtype object itself - X.dtype, dtype_for(..), np.dtype(..),
+    remove_titles_from_dtype(..) of one - rather than a projection of it (names, fields, a dict or
+    set built from it), whose comparison would forget order, offsets or titles?"""
+    if isinstance(e, ast.Attribute) and e.attr == "dtype":
+        return True
+    if isinstance(e, ast.Call):
+        nm = (call_name(e) or "").split(".")[-1]
+        if nm in ("dtype_for", "dtype"):
+            return True
+        if nm in ("remove_titles_from_dtype",) and e.args:
+            return _is_dtype_expr(r, at, e.args[0], depth)
+        return False
+    if isinstance(e, ast.Name) and depth > 0:
+        ds = [d for d in r.defs_of(at, e.id) if d[1] is not None]
+        if not ds:
+            return False
+        for name, val, st, how in ds:
+            if how not in ("assign",) and how is not None and how != "assign":
+                pass
+            src = r.cfg.nodes_of(st) if isinstance(st, ast.stmt) else []
+            if not _is_dtype_expr(r, src[0] if src else at, val, depth - 1):
+                return False
+        return True
+    return False
+
+
 def _dtype_checkers(repo):
     """Plugin methods that raise when the delivered array's dtype differs from dtype_for(d)."""
     out = set()
@@ -181,7 +209,7 @@ def _dtype_checkers(repo):
                             pl_, pr_ = r.provenance(g, c.left), r.provenance(g, c.comparators[0])
                             a, b = ("call:self.dtype_for" in pl_, "call:self.dtype_for" in pr_)
                             x, y = (".dtype" in pl_ and not a, ".dtype" in pr_ and not b)
-                            if (a and y) or (b and x):
+                            if ((a and y) or (b and x)) and _is_dtype_expr(r, g, c.left) and _is_dtype_expr(r, g, c.comparators[0]):
                                 out.add(f)
     return out
 
@@ -506,8 +534,41 @@ def r6_time_fields(chk, repo):
     ok, path = gcfg.every_path([gcfg.entry], [gcfg.exit_return], fixes, "n")
     chk.check(ok, "C12.R6", gp, None, "a plugin can be handed out without fix_dtype (and its time-field check) having run", site_text="__get_plugin: fix_dtype on every path")
 
+# ------------------------------------------------------------------------------------ R7
+def r7_independent_expectation(chk, repo):
+    chk.describe("C12.R7", "a delivered object is checked against what the plugin declares, never against something read off the object itself (expected label / dtype argument independent of the checked argument)")
+    pl = repo.cls("Plugin")
+    names = {f.name for f in _closure(repo, _label_checkers(repo), pl)} | {f.name for f in _dtype_checkers(repo)} | {"_check_chunk", "_check_dtype"}
+    n = 0
+    for f in repo.functions:
+        if not f.path.startswith("strax/plugins/"):
+            continue
+        for c in calls_in(f.node):
+            nm = call_name(c) or ""
+            if not (nm.startswith("self.") and nm.split(".")[-1] in names) or len(c.args) < 2:
+                continue
+            n += 1
+            obj, exp = c.args[0], c.args[1]
+            root = obj
+            while isinstance(root, (ast.Attribute, ast.Subscript, ast.Call)):
+                root = root.func if isinstance(root, ast.Call) else root.value
+            rname = root.id if isinstance(root, ast.Name) else None
+            prov = prov_at(f, stmt_of(c), exp)
+            bad = rname is not None and rname != "self" and (rname in prov or f"{rname}.data_type" in prov or f"{rname}.dtype" in prov)
+            chk.check(not bad, "C12.R7", f, stmt_of(c), f"`{norm(c)[:80]}`: the expectation is derived from the object being checked - the check can never fail",
+                      site_text=f"{f.qualname}: `{norm(c)[:60]}` expectation independent of the object", site={"function": f.qualname, "call": nm, "object": norm(obj)[:60]})
+    chk.floor("C12.R7", "label / dtype check call sites with an explicit expectation", n, 2)
+
 
 WITNESSES = [
+    W("dtype compared field-wise through a dict (order forgotten)", "C12.R2", PLUGIN,
+      "if got != expect:\n            raise strax.PluginGaveWrongOutput(", "if dict(got.fields) != dict(expect.fields):\n            raise strax.PluginGaveWrongOutput("),
+    W("dtype compared by names only", "C12.R2", PLUGIN,
+      "if got != expect:\n            raise strax.PluginGaveWrongOutput(", "if got.names != expect.names:\n            raise strax.PluginGaveWrongOutput("),
+    W("chunk checked against its own label", "C12.R7", DOWN,
+      "for d, v in _result.items():\n                    self._check_chunk(v, d)", "for d, v in _result.items():\n                    self._check_chunk(v, v.data_type)"),
+    W("fix_output checks the chunk against its own label", "C12.R7", PLUGIN,
+      "self._check_chunk(result, _dtype)\n        return self.superrun_transformation", "self._check_chunk(result, result.data_type)\n        return self.superrun_transformation"),
     W("restore the self-comparison in Chunk.__init__ (the original defect)", "C12.R1", CHUNK,
       "got_dtype = strax.remove_titles_from_dtype(self.data.dtype)", "got_dtype = strax.remove_titles_from_dtype(dtype)"),
     W("dead guard in _check_dtype", "C12.R1", PLUGIN,
